@@ -516,11 +516,51 @@ def fromElementsOps (ws : List Nat) (es : List (Nat × Nat × Nat)) : List Op :=
     | some a, some b => some (.buildAddEdge a b e.2.2)
     | _, _ => none)
 
+/-! ### `from_elements` on an arbitrary element sequence (wave 6)
+
+`data.rs::from_elements_indexable`: a fresh graph; a node element is `add_node`; an edge element looks both
+endpoints up with `NodeIndexable::from_index` (an `assert!` — the call panics for a position that does not exist
+at that moment) and calls `Build::add_edge`.  In a graph that only grows `from_index` is the order of first
+insertion, so the positions can be resolved on the element list alone (`seen`); `C03_from_elems_is_the_indexable_loop`
+proves that these are the calls the loop makes on the mirror model, panic for panic. -/
+
+inductive Elem where
+  | node (w : Nat)
+  | edge (i j w : Nat)
+  deriving Repr, DecidableEq
+
+def parseElem (s : String) : Option Elem :=
+  if s.startsWith "n" then (s.drop 1).toString.toNat?.map .node
+  else if s.startsWith "e" then (parseTriple (s.drop 1).toString).map fun t => .edge t.1 t.2.1 t.2.2
+  else none
+
+def parseElems (s : String) : Option (List Elem) :=
+  if s == "-" then some [] else (s.splitOn ",").mapM parseElem
+
+/-- the calls after the initial `with_capacity(0, 0)`; `seen` = the distinct node weights so far, in order of first
+appearance; `none` = an edge element names a position that does not exist yet (the call panics) -/
+def fromElemsGo : List Nat → List Elem → Option (List Op)
+  | _, [] => some []
+  | seen, .node w :: t => (fromElemsGo (if seen.contains w then seen else seen ++ [w]) t).map (.addNode w :: ·)
+  | seen, .edge i j w :: t =>
+    match seen[i]?, seen[j]? with
+    | some a, some b => (fromElemsGo seen t).map (.buildAddEdge a b w :: ·)
+    | _, _ => none
+
+def fromElemsOps (el : List Elem) : Option (List Op) := (fromElemsGo [] el).map (.clear :: ·)
+
+/-- the node weights of the node elements -/
+def elemNodes : List Elem → List Nat
+  | [] => []
+  | .node w :: t => w :: elemNodes t
+  | .edge .. :: t => elemNodes t
+
 /-- both machines advanced by calls whose node values are in range (`none`: out of range) -/
 def advance (d : DState) (ops : List Op) : Option DState :=
   if ops.all (opBoundedB d.k) then some { d with s := (GM.run d.s ops).1, g := specRun d.g ops } else none
 
-def step (d : DState) (req : List String) (impl : String) : DState × String :=
+/-- the protocol lines of waves 1–5 (one call / one dump / the hasher comparison per line) -/
+def stepCore (d : DState) (req : List String) (impl : String) : DState × String :=
   match req with
   | ["case", c, dir, kk] =>
     let directed := dir == "dir"
@@ -563,5 +603,36 @@ def step (d : DState) (req : List String) (impl : String) : DState × String :=
       match advance d [op] with
       | some d' => (d', verdict spec (showOut (GM.step d.s op).2) impl)
       | none => (d, outOfRange d.k req)
+
+/-- wave 6: the lines that do not address one call.
+* `law <family> …`: a law the harness checked against the implementation itself (c03_laws.rs: every iterator
+  under the iterator laws, `clone_from`, `Default`, `Debug`, the visit traits and adaptors against the inherent
+  methods, every construction form against the `add_edge` loop, serde, walkers, rayon); the only acceptable
+  answer is `ok`, anything else is a failing input.  Neither machine moves.
+* `instances`: the same history under another node / weight type (and hasher) must give the same observations.
+* `from_elems <elements>`: `from_elements` on an arbitrary element sequence (distinct node weights), a panic
+  exactly when an edge element names a position that does not exist yet. -/
+def step (d : DState) (req : List String) (impl : String) : DState × String :=
+  match req with
+  | "law" :: _ =>
+    (d, verdict (if impl == "ok" then none else some s!"law violated [{String.intercalate " " req}]: {impl}") "ok" impl)
+  | ["instances"] => (d, cmpExact "same" impl)
+  | ["from_elems", el] =>
+    match parseElems el with
+    | none => (d, s!"SPECFAIL bad request {req}")
+    | some el =>
+      -- positions are read as "index of appearance" (the documentation of `Element`): needs distinct node weights
+      if !(nodupB (elemNodes el)) then
+        (d, s!"SPECFAIL generator left the proved range: from_elements with repeated node weights [{String.intercalate " " req}]")
+      else
+      match fromElemsOps el with
+      | none =>
+        -- an edge element names a position that does not exist (yet): `from_index` panics, the graph is not replaced
+        (d, verdict (if impl == "panic" then none else some s!"from_elements with a dangling position answered [{impl}]") "panic" impl)
+      | some ops =>
+        match advance d ops with
+        | some d' => (d', verdict (if impl == "ok" then none else some s!"from_elements answered [{impl}]") "ok" impl)
+        | none => (d, outOfRange d.k req)
+  | _ => stepCore d req impl
 
 end PetgraphModel.C03
